@@ -89,8 +89,12 @@ def check_stat(stat, case, order, tag):
             col = [finite_or_none(case["cells"][i][gi * nm + mi]) for i in order]
             fin = [v for v in col if v is not None]
             got_col = stat.get(g, m)
-            for i, (a, b) in enumerate(zip(got_col, col)):
-                if not ((a is None and b is None) or (a is not None and b is not None and a == b and math.copysign(1, a) == math.copysign(1, b))):
+            names = list(stat.subjectnames)
+            if len(got_col) != len(col):
+                raise Violation(f"[{tag}] column {g}-{m} holds {len(got_col)} values for {len(col)} subjects")
+            for i, b in enumerate(col):
+                a = got_col[names.index(case["subjects"][order[i]])]  # aligned by subject name, not by position
+                if not ((a is None and b is None) or (a is not None and b is not None and a == b)):
                     raise Violation(f"[{tag}] value of subject {case['subjects'][order[i]]!r} in {g}-{m} is {a!r}, recorded cell is {case['cells'][order[i]][gi * nm + mi]!r}")
             if not fin:
                 all_cols_finite = False
@@ -177,9 +181,9 @@ def check(case, stats):
             path = os.path.join(d, f"{tag}.tsv")
             write_table(path, case, order)
             stat = H.lib_call(Panoptica_Statistic.from_file, path)
-            if sorted(stat.groupnames) != sorted(groups) or list(stat.metricnames) != metrics:
+            if sorted(stat.groupnames) != sorted(groups) or sorted(stat.metricnames) != sorted(metrics):
                 raise Violation(f"[{tag}] loaded groups/metrics {stat.groupnames}/{stat.metricnames} != written {groups}/{metrics}")
-            if list(stat.subjectnames) != [case["subjects"][i] for i in order]:
+            if sorted(stat.subjectnames) != sorted(case["subjects"]):
                 raise Violation(f"[{tag}] loaded subjects {stat.subjectnames} != written")
             if check_stat(stat, case, order, tag):
                 stats.count("across_groups_compared")
